@@ -48,6 +48,8 @@ PURE_METHODS = {
     "json", "raise_for_status", "abort", "validate", "is_devrelease", "is_prerelease", "tzname", "dst", "weekday", "isocalendar", "toordinal", "translate", "maketrans", "swapcase",
     "removeprefix", "removesuffix", "isspace", "isupper", "islower", "elements", "most_common",
 }
+# method names that only path-like objects carry and that only query the file system
+UNK_READ_METHODS = {"exists", "is_dir", "is_file", "is_symlink", "resolve", "absolute", "iterdir", "stat", "lstat", "samefile", "read_text", "read_bytes", "expanduser", "is_mount", "readlink"}
 FILE_METHODS_READ = {"read", "readline", "readlines", "close", "seek", "tell", "__enter__", "__exit__", "fileno", "readinto", "peek", "readable", "seekable", "closed"}
 FILE_METHODS_WRITE = {"write", "writelines", "flush", "truncate"}
 
@@ -94,6 +96,8 @@ def classify(program: Program, call: ast.Call, target: str, func: Func) -> Tuple
         return "UNCLASSIFIED", t
     if t.startswith("ext:"):
         q = t[4:]
+        if q.split(".")[0] in ("dict", "list", "set", "tuple", "object", "str", "int", "Exception", "frozenset", "bytes") and len(q.split(".")) == 2 and (q.split(".")[1].startswith("__") or q.split(".")[1] in PURE_METHODS):
+            return "PURE", q  # super().__init__() etc. of a builtin base class
         if q.startswith("requests.") or q.startswith("urllib.") or q.startswith("http.") or q.startswith("socket.") and not q.endswith("gethostname"):
             return "NET", q
         if q.startswith("os.path."):
@@ -175,6 +179,8 @@ def classify(program: Program, call: ast.Call, target: str, func: Func) -> Tuple
             return "PURE", t
         if m in program.method_names:
             return "INTERNAL", t
+        if m in UNK_READ_METHODS:
+            return "READ", t
         return "UNCLASSIFIED", f"method .{m}() on a receiver of unknown type"
     if t.startswith("modvar:"):
         return "UNCLASSIFIED", t
